@@ -54,7 +54,8 @@ def build_pool(rng: random.Random, cfg: dict) -> list:
     for name in (modelgen.SHIPPED if cfg["large"] else modelgen.SHIPPED_SMALL):
         text = modelgen.shipped_text(name)
         pool.append({"src": "shipped:" + name, "text": text, "large": name in modelgen.SHIPPED[4:]})
-    small = [p for p in pool if not p["large"]]
+    pool.append({"src": "handwritten:unicode", "text": modelgen.UNICODE_MODEL, "large": False})
+    small = [p for p in pool if not p["large"] and p["src"].startswith("shipped")]
     for i in range(cfg["n_mut"]):
         base = small[2 + (i % 2)] if len(small) >= 4 else small[i % len(small)]
         pool.append({"src": "mutated:" + base["src"], "text": modelgen.mutate_shipped(rng, base["text"], 4),
